@@ -18,8 +18,9 @@ EXPLANATION = (
     'root by root, module suffixes before the package __init__.py, and a name found nowhere (and not loaded) must '
     'end in ImportError; R3 get_module and list_packages use the same suffix table and package marker; R4 every '
     'explicit raise reachable from get_nmodule/get_module/norm_package raises ImportError (callers catch exactly '
-    'that). Agreement with importlib on concrete trees and the relative-name arithmetic of norm_package are NOT '
-    'decided.')
+    'that); R5 Project.norm_package, abstractly interpreted on a fixed three-level package tree, returns what '
+    'importlib.util.resolve_name returns for every file and level 1..4, alone and after every other call on the same '
+    'project (the directory cache). Agreement with importlib on arbitrary concrete trees is NOT decided.')
 TECHNIQUE = 'abstract interpretation of get_module over a symbolic file system + derivation/sibling rules + raise-class rule'
 
 PROJECT = 'supp/project.py'
@@ -114,6 +115,58 @@ def run(repo, res):
         res.check('C07-R2', key, ok, PROJECT, 0, msg, sample='%s -> %s' % (key, chosen or (exc and exc.exc_name) or 'imported'))
         results.append((key, chosen))
     res.count('file_system_paths', paths, floor=10)
+
+    # ---- R5 relative names (norm_package) on a fixed package tree, incl. call sequences on one project ----
+    it2 = Interp(repo, facts)
+    it2.module_env(PROJECT)['SUFFIXES'] = ['.py', '.so']
+    it2.fs = {'<R>/top/__init__.py', '<R>/top/sub/__init__.py', '<R>/top/sub/deep/__init__.py'}
+    it2.reset_path([])
+    files = {'<R>/top/sub/deep/m.py': ['top', 'sub', 'deep'], '<R>/top/sub/m.py': ['top', 'sub'], '<R>/top/m.py': ['top']}
+
+    def reference(fname, spec):
+        # importlib.util.resolve_name(spec, package) with package = the file's package
+        pkg = files[fname]
+        level = len(spec) - len(spec.lstrip('.'))
+        rest = spec.lstrip('.')
+        if level > len(pkg):
+            return 'ImportError'
+        base = pkg[:len(pkg) - (level - 1)]
+        return '.'.join(base + ([rest] if rest else []))
+
+    specs = ['.x', '..x', '...x', '....x', '.', '..']
+    calls = [(f, sp) for f in sorted(files) for sp in specs]
+    nrel = 0
+    bad = []
+    try:
+        for first in [None] + calls:
+            for second in calls:
+                it2.steps = 0
+                p = it2.instantiate(proj, [['<R>']], {})
+                seq = ([first] if first else []) + [second]
+                got = None
+                for f, sp in seq:
+                    try:
+                        got = it2.call(it2.getattr(p, 'norm_package'), [sp, f], {})
+                    except InterpRaise as e:
+                        got = e.exc_name
+                nrel += 1
+                want = reference(*second)
+                if got != want and not (want == 'ImportError' and got in ('ImportError', 'ModuleNotFoundError')):
+                    bad.append((first, second, got, want))
+    except Uninterpretable as e:
+        raise AnalysisError('norm_package is outside the interpretable subset: %s' % e)
+    res.obligations += nrel - 1
+    res.discharged += nrel - 1 - (1 if bad else 0)
+    b = bad[:1]
+    res.check('C07-R5', 'relative names resolve like importlib.util.resolve_name', not bad, PROJECT,
+              repo.method(PROJECT, 'Project', 'norm_package').lineno,
+              'on the package tree top/sub/deep, after resolving %s the call norm_package(%r) from %s returns %r; '
+              'importlib.util.resolve_name gives %r (%d of %d call sequences differ)'
+              % (b[0][0] if b else '', b[0][1][1] if b else '', b[0][1][0] if b else '', b[0][2] if b else '',
+                 b[0][3] if b else '', len(bad), nrel),
+              sample='%d call sequences (every file x level 1..4, alone and after every other call on the same project) agree '
+                     'with resolve_name' % nrel)
+    res.count('relative_name_sequences', nrel, floor=300)
 
     # ---- R3 sibling agreement ------------------------------------------------------------------------
     gm = repo.method(PROJECT, 'Project', 'get_module')
